@@ -238,31 +238,29 @@ theorem replace_final (cfg : Cfg) (st : RState) (t : Target) (e0 : Entry) (rest 
       exact hfirst
 
 /-! ## bidirectional replay (buildBisyncRdbReplayUnit with `skippedKey` + execBisyncRdbUnit)
-
-  Hypothesis `e0.key ≠ []`: the builder treats an entry with an empty key as
-  having no business key (no probe, no DEL) — see the property config. -/
+ -/
 
 /-- **ignore** (bidirectional): only the EXISTS probe is sent; no unit is built
     for the first nor for ANY later chunk of the key; the target is unchanged. -/
 theorem ignore_untouched_bisync (cfg : Cfg) (st : RState) (t : Target) (e0 : Entry) (rest : List Entry) (o : Obj)
-    (g : Group e0 rest) (hk : e0.key ≠ []) (hex : t.get e0.key = some o) :
+    (g : Group e0 rest) (hex : t.get e0.key = some o) :
     (runBisync .ignore cfg st t (e0 :: rest)).out = .ok ∧
     (runBisync .ignore cfg st t (e0 :: rest)).reqs = [Req.exists e0.key] ∧
     (runBisync .ignore cfg st t (e0 :: rest)).tgt = t := by
   cases hr : rest with
   | nil =>
     have h : buildUnit .ignore cfg st (viewOf t e0) e0 = ([Req.exists e0.key], [], .skip, if e0.splited then some e0.key else none) := by
-      rw [view_some hex]; simp [buildUnit, g.data, g.first, hk]
+      rw [view_some hex]; simp [buildUnit, g.data, g.first]
     obtain ⟨h1, h2, h4⟩ := runBisync_cons_ok _ _ _ _ _ [] _ _ _ _ rfl h
     simp only [runBisync_nil, reduceCtorEq, if_false, List.append_nil] at h1 h2 h4
     exact ⟨h2, h1, by rw [h4]; rfl⟩
   | cons e1 rest' =>
     have hsp : e0.splited = true := g.split (by rw [hr]; simp)
     have h : buildUnit .ignore cfg st (viewOf t e0) e0 = ([Req.exists e0.key], [], .skip, some e0.key) := by
-      rw [view_some hex]; simp [buildUnit, g.data, g.first, hk, hsp]
+      rw [view_some hex]; simp [buildUnit, g.data, g.first, hsp]
     obtain ⟨h1, h2, h4⟩ := runBisync_cons_ok _ _ _ _ _ (e1 :: rest') _ _ _ _ rfl h
     simp only [reduceCtorEq, if_false, List.append_nil] at h1 h2 h4
-    obtain ⟨s1, s2, s3⟩ := runBisync_later_skip .ignore cfg e0.key hk (e1 :: rest') (applyReqs t [Req.exists e0.key])
+    obtain ⟨s1, s2, s3⟩ := runBisync_later_skip .ignore cfg e0.key (e1 :: rest') (applyReqs t [Req.exists e0.key])
       (by rw [← hr]; exact g.later)
     rw [s1] at h1; rw [s2] at h2; rw [s3] at h4
     exact ⟨h2, by simpa using h1, by rw [h4]; rfl⟩
@@ -270,12 +268,12 @@ theorem ignore_untouched_bisync (cfg : Cfg) (st : RState) (t : Target) (e0 : Ent
 /-- **error** (bidirectional): the builder fails with the key-exists error after
     the EXISTS probe; nothing is written. -/
 theorem error_before_modify_bisync (cfg : Cfg) (st : RState) (t : Target) (e0 : Entry) (rest : List Entry) (o : Obj)
-    (g : Group e0 rest) (hk : e0.key ≠ []) (hex : t.get e0.key = some o) :
+    (g : Group e0 rest) (hex : t.get e0.key = some o) :
     (runBisync .error cfg st t (e0 :: rest)).out = .errExists ∧
     (runBisync .error cfg st t (e0 :: rest)).reqs = [Req.exists e0.key] ∧
     (runBisync .error cfg st t (e0 :: rest)).tgt = t := by
   have h : buildUnit .error cfg st (viewOf t e0) e0 = ([Req.exists e0.key], [], .errExists, none) := by
-    rw [view_some hex]; simp [buildUnit, g.data, g.first, hk]
+    rw [view_some hex]; simp [buildUnit, g.data, g.first]
   obtain ⟨h1, h2, h3⟩ := runBisync_cons_err _ _ _ _ _ rest _ _ _ _ (by simp [bOut]) h
   simp only [reduceCtorEq, if_false, List.append_nil] at h1 h2 h3
   exact ⟨h2, h1, by rw [h3]; rfl⟩
@@ -284,7 +282,7 @@ theorem error_before_modify_bisync (cfg : Cfg) (st : RState) (t : Target) (e0 : 
     the first unit and native commands in the later units — the target ends
     with exactly the snapshot's value and expiry, whatever it held before. -/
 theorem replace_final_bisync (cfg : Cfg) (st : RState) (t : Target) (e0 : Entry) (rest : List Entry)
-    (g : Group e0 rest) (v : Value e0 rest) (hk : e0.key ≠ []) :
+    (g : Group e0 rest) (v : Value e0 rest) :
     (runBisync .replace cfg st t (e0 :: rest)).out = .ok ∧
     (runBisync .replace cfg st t (e0 :: rest)).tgt.get e0.key = some (snapshotObj cfg t.now e0 rest) ∧
     (∀ d k, ¬ (d = t.cur ∧ k = e0.key) → (runBisync .replace cfg st t (e0 :: rest)).tgt.ks d k = t.ks d k) ∧
@@ -296,7 +294,7 @@ theorem replace_final_bisync (cfg : Cfg) (st : RState) (t : Target) (e0 : Entry)
     subst hr
     let r1 := Req.restore e0.key (ttlMs cfg.now e0.expireAt) e0.dump (restoreOpts cfg e0) true
     have h : buildUnit .replace cfg st (viewOf t e0) e0 = ([], [r1], .unit, none) := by
-      simp [buildUnit, g.data, g.first, hk, hu, r1]
+      simp [buildUnit, g.data, g.first, hu, r1]
     obtain ⟨_, h2, h4⟩ := runBisync_cons_ok _ _ _ _ _ [] _ _ _ _ rfl h
     simp only [runBisync_nil, if_true, List.nil_append] at h2 h4
     rw [h2, h4]
@@ -309,10 +307,10 @@ theorem replace_final_bisync (cfg : Cfg) (st : RState) (t : Target) (e0 : Entry)
     have hexp_on := expand_onKey cfg e0.key e0 rfl v.c0
     have hrest_on := flatMap_units_onKey cfg e0.key rest (fun e he => ⟨(hlater e he).1, (hlater e he).2.1⟩)
     have h : buildUnit .replace cfg st (viewOf t e0) e0 = ([], Req.del e0.key :: expand cfg e0, .unit, none) := by
-      simp [buildUnit, g.data, g.first, hk, hu', expandB_eq cfg e0 hk]
+      simp [buildUnit, g.data, g.first, hu', expandB_eq cfg e0]
     obtain ⟨_, h2, h4⟩ := runBisync_cons_ok _ _ _ _ _ rest _ _ _ _ rfl h
     simp only [if_true, List.nil_append] at h2 h4
-    have hl := fun t' => runBisync_later_expand .replace cfg e0.key hk none (by simp) rest t' g.later
+    have hl := fun t' => runBisync_later_expand .replace cfg e0.key none (by simp) rest t' g.later
     rw [h2, h4, (hl _).2.1, (hl _).2.2, ← applyReqs_append]
     refine ⟨rfl, ?_⟩
     apply final_of_reqs t e0 _ (by
